@@ -56,6 +56,10 @@ func init() {
 			fr.i.ps.ChoiceVals[strArg(a[0])] = fc
 			return fc
 		}
+		if fr.i.ps.Fixed != nil {
+			fr.i.ps.ChoiceVals[strArg(a[0])] = 0 // concrete run: unpinned choices default to 0, as in the native API
+			return 0
+		}
 		c := fr.i.ps.choose(n)
 		fr.i.ps.Choices = append(fr.i.ps.Choices, fmt.Sprintf("%s=%d", strArg(a[0]), c))
 		fr.i.ps.ChoiceVals[strArg(a[0])] = c
@@ -120,7 +124,20 @@ func init() {
 		return !containsSym(a[0])
 	})
 	reg("vxObserve", func(fr *frame, a []value) value {
-		fr.i.ps.Observes = append(fr.i.ps.Observes, strArg(a[0])+"="+toString(a[1]))
+		v := a[1]
+		if ifc, ok := v.(iface); ok {
+			v = ifc.v
+		}
+		var txt string
+		switch x := v.(type) {
+		case string:
+			txt = x
+		case bool, int, int8, int16, int32, int64, uint, uint8, uint16, uint32, uint64, float64:
+			txt = fmt.Sprint(x)
+		default:
+			txt = toString(v)
+		}
+		fr.i.ps.Observes = append(fr.i.ps.Observes, strArg(a[0])+"="+txt)
 		return nil
 	})
 	// lock monitor (C18)
